@@ -15,6 +15,7 @@ package c19
 import (
 	"context"
 	"encoding/json"
+	"errors"
 	"fmt"
 	"os"
 	"path/filepath"
@@ -41,6 +42,7 @@ import (
 	"github.com/lindb/lindb/rpc"
 	"github.com/lindb/lindb/series/field"
 	"github.com/lindb/lindb/series/metric"
+	"github.com/lindb/lindb/series/tag"
 	"github.com/lindb/lindb/sql/stmt"
 	"github.com/lindb/lindb/tsdb"
 
@@ -71,6 +73,8 @@ type lpFaults struct {
 	planPanic     models.ShardID // Shard.GetDataFamilies panics: shardScanStage.Plan()
 	execPanic     models.ShardID // the shard's index database panics in GetSeriesIDsForMetric: inside the pooled shard-scan stage's MetricAllSeries operator
 	ctorPanic     models.ShardID // Shard.IndexDB panics: in the operator constructor called from shardScanStage.Plan()
+	metaErr       bool           // the metadata database's Suggest*/GetSchema calls return an (injected) I/O error
+	metaPanic     bool           // … panic
 }
 
 type lpFaultBox struct {
@@ -106,6 +110,57 @@ func (e *lpEngine) GetDatabase(name string) (tsdb.Database, bool) {
 type lpDatabase struct {
 	tsdb.Database
 	f *lpFaultBox
+}
+
+func (d *lpDatabase) MetaDB() index.MetricMetaDatabase {
+	return &lpMetaDB{MetricMetaDatabase: d.Database.MetaDB(), f: d.f}
+}
+
+var errInjectedIO = errors.New("injected index read error")
+
+// lpMetaDB injects faults into the calls the metadata-suggest operators make.
+type lpMetaDB struct {
+	index.MetricMetaDatabase
+	f *lpFaultBox
+}
+
+func (m *lpMetaDB) fault(what string) error {
+	ft := m.f.get()
+	if ft.metaPanic {
+		panic("injected panic in MetricMetaDatabase." + what)
+	}
+	if ft.metaErr {
+		return fmt.Errorf("%s: %w", what, errInjectedIO)
+	}
+	return nil
+}
+
+func (m *lpMetaDB) SuggestNamespace(prefix string, limit int) ([]string, error) {
+	if err := m.fault("SuggestNamespace"); err != nil {
+		return nil, err
+	}
+	return m.MetricMetaDatabase.SuggestNamespace(prefix, limit)
+}
+
+func (m *lpMetaDB) SuggestMetrics(ns, prefix string, limit int) ([]string, error) {
+	if err := m.fault("SuggestMetrics"); err != nil {
+		return nil, err
+	}
+	return m.MetricMetaDatabase.SuggestMetrics(ns, prefix, limit)
+}
+
+func (m *lpMetaDB) SuggestTagValues(id tag.KeyID, prefix string, limit int) ([]string, error) {
+	if err := m.fault("SuggestTagValues"); err != nil {
+		return nil, err
+	}
+	return m.MetricMetaDatabase.SuggestTagValues(id, prefix, limit)
+}
+
+func (m *lpMetaDB) GetSchema(id metric.ID) (*metric.Schema, error) {
+	if err := m.fault("GetSchema"); err != nil {
+		return nil, err
+	}
+	return m.MetricMetaDatabase.GetSchema(id)
 }
 
 func (d *lpDatabase) GetShard(id models.ShardID) (tsdb.Shard, bool) {
@@ -360,6 +415,12 @@ type lpScenario struct {
 	badStmt   bool // unreadable statement
 	notLeaf   bool // the plan does not name this node
 	stopped   bool // the request arrives at a task handler whose task pool is stopped
+	// metadata-suggest requests (RequestType_Metadata → processMetadataSuggest → MetadataSuggest stage)
+	meta      stmt.MetricMetadataType // != 0: a suggest request of this type
+	prefix    string
+	tagKey    string
+	tolerated bool // the stage fails with a not-found error, which the suggest callback answers as an empty result
+	badType   bool // a request type the leaf processor does not dispatch (Process's default branch)
 }
 
 // the healthy stage structure of a shard with data: shard scan -> grouping -> data load
@@ -384,6 +445,23 @@ func lpScenarios() []lpScenario {
 		{name: "unreadable-plan", tree: "-", wantErr: true, metric: lpMetric, field: lpField, badPlan: true},
 		{name: "unreadable-statement", tree: "-", wantErr: true, metric: lpMetric, field: lpField, shards: []models.ShardID{1}, badStmt: true},
 		{name: "not-a-leaf-of-the-plan", tree: "-", wantErr: true, metric: lpMetric, field: lpField, shards: []models.ShardID{1}, notLeaf: true},
+		// metadata suggest: every stage runs inline on the task's goroutine
+		{name: "suggest-namespaces", tree: "So", meta: stmt.Namespace},
+		{name: "suggest-metrics", tree: "So", meta: stmt.Metric, prefix: "c"},
+		{name: "suggest-tag-keys", tree: "So", meta: stmt.TagKey, metric: lpMetric},
+		{name: "suggest-fields", tree: "So", meta: stmt.Field, metric: lpMetric},
+		{name: "suggest-tag-values", tree: "So", meta: stmt.TagValue, metric: lpMetric, tagKey: lpTagKey, shards: []models.ShardID{1, 2}},
+		{name: "suggest-tag-values-where", tree: "So(So,So)", meta: stmt.TagValue, metric: lpMetric, tagKey: lpTagKey, where: true, shards: []models.ShardID{1, 2}},
+		{name: "suggest-tag-keys-unknown-metric", tree: "Se", tolerated: true, meta: stmt.TagKey, metric: "nope"},
+		{name: "suggest-tag-values-unknown-tag-key", tree: "Se", tolerated: true, meta: stmt.TagValue, metric: lpMetric, tagKey: "nokey", shards: []models.ShardID{1}},
+		{name: "suggest-metrics-index-error", tree: "Se", wantErr: true, meta: stmt.Metric, faults: lpFaults{metaErr: true}},
+		{name: "suggest-fields-index-error", tree: "Se", wantErr: true, meta: stmt.Field, metric: lpMetric, faults: lpFaults{metaErr: true}},
+		{name: "suggest-tag-values-index-error", tree: "Se", wantErr: true, meta: stmt.TagValue, metric: lpMetric, tagKey: lpTagKey, shards: []models.ShardID{1}, faults: lpFaults{metaErr: true}},
+		{name: "suggest-namespaces-panic", tree: "Sp", wantErr: true, meta: stmt.Namespace, faults: lpFaults{metaPanic: true}},
+		{name: "suggest-tag-values-where-shard-panic", tree: "So(So,Sl)", wantErr: true, meta: stmt.TagValue, metric: lpMetric, tagKey: lpTagKey, where: true, shards: []models.ShardID{1, 2}, faults: lpFaults{ctorPanic: 2}},
+		{name: "suggest-unreadable-statement", tree: "-", wantErr: true, meta: stmt.Metric, badStmt: true},
+		// a request type the leaf processor does not know: Process's default branch omits it
+		{name: "unknown-request-type", tree: "o", metric: lpMetric, field: lpField, shards: []models.ShardID{1}, badType: true},
 		// (c) at the request level: TaskHandler.process submits the whole request to a stopped pool
 		{name: "handler-pool-stopped", tree: "x", wantErr: true, metric: lpMetric, field: lpField, shards: []models.ShardID{1, 2}, stopped: true},
 	}
@@ -409,6 +487,20 @@ func (w *lpWorld) request(id string, sc *lpScenario) (*protoCommonV1.TaskRequest
 	if err != nil {
 		return nil, err
 	}
+	reqType := protoCommonV1.RequestType_Data
+	if sc.meta != 0 {
+		reqType = protoCommonV1.RequestType_Metadata
+		m := &stmt.MetricMetadata{Namespace: lpNamespace, MetricName: sc.metric, Type: sc.meta, TagKey: sc.tagKey, Prefix: sc.prefix}
+		if sc.where {
+			m.Condition = &stmt.EqualsExpr{Key: lpTagKey, Value: "h1"}
+		}
+		if payload, err = m.MarshalJSON(); err != nil {
+			return nil, err
+		}
+	}
+	if sc.badType {
+		reqType = protoCommonV1.RequestType(77)
+	}
 	if sc.badStmt {
 		payload = []byte("{not json")
 	}
@@ -425,12 +517,12 @@ func (w *lpWorld) request(id string, sc *lpScenario) (*protoCommonV1.TaskRequest
 	if sc.badPlan {
 		plan = []byte("{not json")
 	}
-	return &protoCommonV1.TaskRequest{RequestID: id, RequestType: protoCommonV1.RequestType_Data,
+	return &protoCommonV1.TaskRequest{RequestID: id, RequestType: reqType,
 		PhysicalPlan: plan, Payload: payload}, nil
 }
 
 func lpTokens(t string) string {
-	if t == "-" || t == "x" {
+	if t == "-" || t == "x" || t == "o" {
 		return t
 	}
 	root := tree(t)
@@ -491,6 +583,9 @@ func (leafArea) Run(c *core.Ctx) error {
 		if sc.stopped {
 			st, wait = w.stream2, 300*time.Millisecond
 		}
+		if sc.badType {
+			wait = 30 * time.Millisecond
+		}
 		st.reqs <- req
 		deadline := time.After(wait)
 		gotOne := false
@@ -526,9 +621,19 @@ func (leafArea) Run(c *core.Ctx) error {
 			fmt.Fprintf(os.Stderr, "case %d %s: ok payload=%d bytes\n", i, sc.name, len(rs[0].Payload))
 		}
 		out := fmt.Sprintf("responses=%d resp=%s", len(rs), resp)
-		c.Op("leafreq "+lpTokens(sc.tree), out)
+		kind := "data"
+		switch {
+		case sc.meta != 0 && sc.tolerated:
+			kind = "meta-notfound"
+		case sc.meta != 0:
+			kind = "meta"
+		}
+		c.Op("leafreq "+kind+" "+lpTokens(sc.tree), out)
 		what := fmt.Sprintf("leaf request scenario %s (stage tree %s)", sc.name, sc.tree)
 		switch {
+		case sc.badType:
+			// Process's default branch answers nothing; reported as an observation only
+			c.Note(fmt.Sprintf("unknown request type: %d responses", len(rs)))
 		case len(rs) == 0:
 			if !sc.stopped {
 				silent++
